@@ -321,7 +321,7 @@ func (s *state) opOn(i int, e *entry, forceKind string) *op {
 	case "where":
 		switch e.class {
 		case "rel":
-			o.src = fmt.Sprintf("%s where (.x?:0) < %d", n, t.Draw(4))
+			o.src = fmt.Sprintf("%s where ((.).x?:0) < %d", n, t.Draw(4))
 		case "str", "bytes", "array", "dict":
 			o.src = fmt.Sprintf("%s where .@ != %s", n, s.keyOf(e))
 		default:
@@ -409,7 +409,7 @@ func (s *state) opOn(i int, e *entry, forceKind string) *op {
 	case "orderby":
 		o.src = fmt.Sprintf("%s orderby .", n)
 	case "project":
-		o.src = fmt.Sprintf("%s => .x?:.y?:0", n)
+		o.src = fmt.Sprintf("%s => (.).x?:((.).y?:0)", n)
 	case "tuple-merge":
 		if t.Bool(1, 2) {
 			j, m := other("tuple")
